@@ -112,3 +112,43 @@ func (o *Once) Do(f func()) {
 		f()
 	}
 }
+
+// Pool is a deterministic sync.Pool: a LIFO free list (Get returns the most recently Put object),
+// which is what makes the reuse of an object that is still referenced observable.
+type Pool struct {
+	New   func() interface{}
+	items []interface{}
+	id    int
+}
+
+func (p *Pool) oid() int {
+	if p.id == 0 {
+		p.id = sched.NewObj()
+	}
+	return p.id
+}
+
+func (p *Pool) Get() interface{} {
+	if sched.Active() {
+		sched.Op("pool.get", p.oid(), nil)
+	}
+	if n := len(p.items); n > 0 {
+		x := p.items[n-1]
+		p.items = p.items[:n-1]
+		return x
+	}
+	if p.New != nil {
+		return p.New()
+	}
+	return nil
+}
+
+func (p *Pool) Put(x interface{}) {
+	if sched.Active() {
+		sched.Op("pool.put", p.oid(), nil)
+	}
+	p.items = append(p.items, x)
+	if sched.Active() {
+		sched.Op("pool.put.done", p.oid(), nil) // the object is now available to others while the caller goes on
+	}
+}
